@@ -160,5 +160,26 @@ func init() {
 		}
 		g.p("/-- every place in contract_buyer.go that resets or initialises the record: function:call -/")
 		g.p("def recordWriters : List String := %s", leanStrList(resets))
+		// the watcher's reaction to the destination-failure signal: the statements of `case <-p.contractErrCh:` in run
+		var errBranch []string
+		ast.Inspect(wrun, func(n ast.Node) bool {
+			cc, ok := n.(*ast.CommClause)
+			if !ok || cc.Comm == nil || !strings.Contains(oneLine(g.src(cc.Comm)), "contractErrCh") {
+				return true
+			}
+			for _, st := range cc.Body {
+				if t := oneLine(g.src(st)); !strings.HasPrefix(t, "p.log.") {
+					errBranch = append(errBranch, t)
+				}
+			}
+			return false
+		})
+		for _, l := range errBranch {
+			if strings.Contains(l, "\"") {
+				fail("contractErrCh branch: unexpected string literal in %s", l)
+			}
+		}
+		g.p("/-- `ContractWatcherBuyer.run`: what the destination-failure signal leads to -/")
+		g.p("def destFailureBranch : List String := %s", leanStrList(errBranch))
 	}
 }
